@@ -5,6 +5,7 @@
 -/
 import Demeter.Drv.Json
 import Demeter.Metrics
+import Demeter.Manager
 namespace Demeter.Drv
 open Demeter Demeter.Metrics Lean
 
@@ -92,7 +93,29 @@ def metricsJHandlers : List (String × JHandler) := [
         ("intervalInDay", ratJ p.intervalInDay), ("durationInDay", ratJ p.durationInDay),
         ("returnValue", ratJ p.returnValue), ("returnRate", valJ p.returnRate), ("annualized", valJ p.annualized),
         ("mdd", valJ p.mdd), ("sharpe", valJ p.sharpe), ("volatility", valJ p.volatility),
-        ("alpha", valJ p.alpha), ("beta", valJ p.beta), ("benchRate", valJ p.benchRate), ("benchApr", valJ p.benchApr)]))
+        ("alpha", valJ p.alpha), ("beta", valJ p.beta), ("benchRate", valJ p.benchRate), ("benchApr", valJ p.benchApr)])),
+  -- C19: the manager model on the position-count projection; `effects` = [[da, db], …] in submission order,
+  -- tasks assigned round-robin to the workers (the theorems say the assignment is irrelevant)
+  ("manager", fun j => do
+    let threads ← jNat j "threads"
+    let attach ← jStr j "attach"
+    let a := if attach == "shared" then Manager.Attach.shared else if attach == "copied" then Manager.Attach.copied
+      else Manager.Attach.current
+    let effs ← jArr j "effects"
+    let strats ← effs.toList.mapM (fun e => match e with
+      | .arr #[x, y] => do
+        let da ← jRatOf x; let db ← jRatOf y
+        pure (Manager.countStrat da.num.toNat db.num.toNat)
+      | _ => throw "effects: expected [da, db]")
+    let cpu := match jOpt j "cpu" with | some (.num n) => n.mantissa.toNat | _ => 1024
+    let ctxSet := match jOpt j "ctxSet" with | some (.bool b) => b | _ => false
+    let flag (k : String) : Bool := match jOpt j k with | some (.bool b) => b | _ => false
+    let cfg : Option (Nat × Nat) := if flag "cfgNone" then none else some (0, 0)
+    let dat : Option Unit := if flag "dataNone" then none else some ()
+    match Manager.managerRun a threads cpu ctxSet (fun i => i % (max threads 1)) cfg dat strats with
+    | .done obs => pure (Json.mkObj [("outcome", .str "ok"),
+        ("positions", .arr (obs.map (fun o => Json.arr #[natJ o.1, natJ o.2])).toArray)])
+    | .raised cls => pure (Json.mkObj [("outcome", .str cls)]))
 ]
 
 end Demeter.Drv
